@@ -64,3 +64,41 @@ Theorem C07_store_failure : forall K addr evs h,
   forall c, ~ In (HWrite h c) (heff (run K rules_validators (node_wiring addr) evs)).
 Proof. exact (fun K addr => store_failure K rules_validators (node_wiring addr)). Qed.
 Print Assumptions C07_store_failure.
+
+(* ---- composition with C01, C03, C02 (proofs/Compose_provider.v) ---------------------------------------------
+   VerifyBid and ConstructPreConfirmation instantiated by the signer model (model/Signer.v) for an arbitrary
+   hash function K and crypto library cr ([signed_history], [Compose_provider.constructed_history], see
+   Properties/C01.v).  Non-vacuity: Compose_provider.ex_provider_premises, ex_provider_writes. *)
+From MevVerif Require model.Eip712 model.Signer proofs.PreconfProvider_signed proofs.Compose_provider.
+
+(* C07 o C01 o C03 o C02.  What is settled is what is signed.  For every commitment written to a bidder (Go int64
+   numbers, byte-valued strings): the transaction the chain client accepted beforehand went to the configured
+   contract and its calldata decodes to (A, block number, tx string, decay window, bid signature, commitment
+   signature), where the commitment signature is the provider key's signature of the commitment digest and that
+   digest is the generic EIP-712 PreConfCommitment hash of exactly (tx string, A, block number, decay window, bid
+   digest, bid signature). *)
+Theorem C07_settled_equals_signed :
+  forall (K : bytes -> bytes) (cr : Signer.crypto) addr evs h c,
+  PreconfProvider_signed.signed_history K cr evs ->
+  Compose_provider.constructed_history K cr rules_validators (node_wiring addr) evs ->
+  In (HWrite h c) (heff (run K rules_validators (node_wiring addr) evs)) ->
+  let S := run K rules_validators (node_wiring addr) evs in
+  let b := c_bid c in
+  Compose_provider.int64_fields b -> (4 <= length (K (Abi.method_sig store_name store_tys)))%nat ->
+  wf_bytes (b_tx b) -> wf_bytes (b_sig b) -> wf_bytes (c_sig c) ->
+  exists A,
+    parse_dec (b_amt b) = Some A /\ 0 < A < 18446744073709551616 /\
+    In (HStored h true) (heff S) /\ In (HSend h addr (calldata K (Z.of_N A) c)) (heff S) /\
+    (Abi.blen (Abi.encode (store_args (Z.of_N A) c)) < Abi.two63 ->
+     Abi.decode_call store_tys (calldata K (Z.of_N A) c) =
+     Some (Abi.selector K (Abi.method_sig store_name store_tys),
+           [Abi.VUint64 A; Abi.VUint64 (Z.to_N (b_bn b)); Abi.VString (b_tx b);
+            Abi.VUint64 (Z.to_N (b_ds b)); Abi.VUint64 (Z.to_N (b_de b));
+            Abi.VBytes (b_sig b); Abi.VBytes (c_sig c)])) /\
+    Signer.sign_normalised cr
+      (Eip712.eip712_commitment K (b_tx b) A (Z.to_N (b_bn b)) (Z.to_N (b_ds b)) (Z.to_N (b_de b))
+                                (b_dig b) (b_sig b)) = Ok (c_sig c) /\
+    c_dig c = Eip712.eip712_commitment K (b_tx b) A (Z.to_N (b_bn b)) (Z.to_N (b_ds b)) (Z.to_N (b_de b))
+                                       (b_dig b) (b_sig b).
+Proof. exact Compose_provider.settled_equals_signed. Qed.
+Print Assumptions C07_settled_equals_signed.
